@@ -491,6 +491,76 @@ def dsWalk (enf anchored : Bool) (candCap budget : Nat) : List (Nat × Option Na
     | (s, true, none) => if anchored then dsWalk enf anchored candCap budget t s true else (s, true, none)
     | (s, false, none) => dsWalk enf anchored candCap budget t s any
 
+/-! ### DNSSEC: hashed denial (`nsec3RingEvaluator.hash`, `verifyNameErrorWithRing`, `VerifyNODATAForZoneWithWork`) -/
+
+/-- the request tree's hash memo of the required scope (`NSEC3HashMemoFromContext`): `none` when
+the context carries none, else the keys stored so far. -/
+abbrev N3Memo := Option (List String)
+
+/-- `nsec3RingEvaluator.hash` for a name that is not in the evaluator's own table:
+a memo hit costs nothing; otherwise `BeginNSEC3Hash`, which is one debit of the tree's
+NSEC3 counter through `dnssecWorkBudget.begin`.  A refused debit stores nothing
+(`loadOrCompute` deletes the entry); a full memo (`maxNSEC3HashMemoEntries`) computes
+without storing. -/
+def n3Hash (p : Policy) (memoCap : Nat) (sh : Shared) (memo : N3Memo) (key : String) : Shared × N3Memo × Res :=
+  match memo with
+  | some m =>
+    if m.contains key then (sh, memo, .ok)
+    else match debit p sh .nsec3Hash true with
+      | (sh', .ok) => (sh', some (if m.length < memoCap then m ++ [key] else m), .ok)
+      | (sh', r) => (sh', memo, r)
+  | none => match debit p sh .nsec3Hash true with
+    | (sh', r) => (sh', none, r)
+
+/-- the hash requests of one proof, in order, through the evaluator's own table `seen`;
+the first refused request ends the proof. -/
+def n3Run (p : Policy) (memoCap : Nat) : List String → List String → Shared → N3Memo → Shared × N3Memo × Res
+  | [], _, sh, memo => (sh, memo, .ok)
+  | n :: t, seen, sh, memo =>
+    if seen.contains n then n3Run p memoCap t seen sh memo
+    else match n3Hash p memoCap sh memo n with
+      | (sh', memo', .ok) => n3Run p memoCap t (n :: seen) sh' memo'
+      | (sh', memo', r) => (sh', memo', r)
+
+/-- `labels` below `base`, from the full name upwards (`dnsname.Suffixes`), `base` last. -/
+def n3Suffixes (base : String) : List String → List String
+  | [] => [base]
+  | l :: t => (".".intercalate (l :: t) ++ "." ++ base) :: n3Suffixes base t
+
+/-- `findClosestEncloserWithWork`: names are hashed upwards until one owns a record of the ring. -/
+def n3Climb (ring : List String) : List String → List String × Option String
+  | [] => ([], none)
+  | n :: t =>
+    if ring.contains n then ([n], some n)
+    else ((n :: (n3Climb ring t).1), (n3Climb ring t).2)
+
+/-- the hash requests of one denial proof and the verdict it reaches when all of them are
+admitted.  Name error: the climb, the next closer name (already in the evaluator's table: not
+listed), the wildcard at the closest encloser; proved iff the name itself is not an owner and
+the wildcard is not one.  NODATA: the name alone if it is an owner; else the same walk, proved
+iff the wildcard is an owner.  (`ring` = original owner names of the NSEC3 ring; no delegation
+or DNAME owners, no Opt-Out.) -/
+def n3Plan (nodata : Bool) (ring : List String) (names : List String) : List String × Bool :=
+  match names with
+  | [] => ([], false)
+  | full :: _ =>
+    if ring.contains full then ([full], nodata)
+    else match n3Climb ring names with
+      | (ns, some ce) => (ns ++ ["*." ++ ce], if nodata then ring.contains ("*." ++ ce) else !ring.contains ("*." ++ ce))
+      | (ns, none) => (ns, false)
+
+inductive N3Out
+  | secure | bogus | work (k : Kind) (lim : Nat)
+deriving Repr, DecidableEq
+
+/-- one required denial validation on the tree's ledger. -/
+def n3Verify (p : Policy) (memoCap : Nat) (nodata : Bool) (ring : List String) (base : String) (labels : List String)
+    (sh : Shared) (memo : N3Memo) : Shared × N3Memo × N3Out :=
+  let plan := n3Plan nodata ring (n3Suffixes base labels)
+  match n3Run p memoCap plan.1 [] sh memo with
+  | (sh', memo', .ok) => (sh', memo', if plan.2 then .secure else .bogus)
+  | (sh', memo', .limit k lim) => (sh', memo', .work k lim)
+
 /-! ### the cache's alias chase and the request deadline -/
 
 /-- what the chase loop of `cache.additionalAnswer` (all nesting levels of one
